@@ -529,25 +529,34 @@ def propagate_aliases(fn: ast.FunctionDef) -> tuple[ast.FunctionDef, int]:
             attr_stores.add(ast.unparse(n))
     alias: dict[str, ast.expr] = {}
     drop: list[ast.stmt] = []
-    for st in fn.body:
-        if isinstance(st, ast.Assign) and len(st.targets) == 1 and isinstance(st.targets[0], ast.Name):
-            nm, val = st.targets[0].id, st.value
-        elif isinstance(st, ast.AnnAssign) and isinstance(st.target, ast.Name) and st.value is not None:
-            nm, val = st.target.id, st.value
-        else:
-            continue
+    def _ok(nm: str, val: ast.expr) -> bool:
         if stores.get(nm) != 1 or not isinstance(val, ast.Attribute) or not _pure_chain(val):
-            continue
+            return False
         root = val
         while isinstance(root, ast.Attribute):
             root = root.value
         if not (isinstance(root, ast.Name) and root.id == selfn):
-            continue
+            return False
         txt = ast.unparse(val)
         # the chain (or a prefix of it) must not be rebound in this function
-        if any(txt == a or txt.startswith(a + ".") for a in attr_stores):
+        return not any(txt == a or txt.startswith(a + ".") for a in attr_stores)
+
+    for st in fn.body:
+        if isinstance(st, ast.Assign) and len(st.targets) == 1 and isinstance(st.targets[0], ast.Name):
+            pairs = [(st.targets[0].id, st.value)]
+        elif isinstance(st, ast.AnnAssign) and isinstance(st.target, ast.Name) and st.value is not None:
+            pairs = [(st.target.id, st.value)]
+        elif (
+            isinstance(st, ast.Assign) and len(st.targets) == 1 and isinstance(st.targets[0], ast.Tuple) and isinstance(st.value, ast.Tuple)
+            and len(st.targets[0].elts) == len(st.value.elts) and all(isinstance(t, ast.Name) for t in st.targets[0].elts)
+        ):
+            pairs = [(t.id, v) for t, v in zip(st.targets[0].elts, st.value.elts)]  # type: ignore[union-attr]
+        else:
             continue
-        alias[nm] = val
+        if not all(_ok(nm, val) for nm, val in pairs):
+            continue
+        for nm, val in pairs:
+            alias[nm] = val
         drop.append(st)
     if not alias:
         return fn, 0
@@ -876,6 +885,82 @@ def update_zip_to_loop(fn: ast.FunctionDef) -> tuple[ast.FunctionDef, int]:
     return new, count
 
 
+def expand_splats(fn: ast.FunctionDef) -> tuple[ast.FunctionDef, int]:
+    """`t = (a, b)` ... `f(*t)`  ->  `f(a, b)`  and  `d = {"k": v}` ... `f(**d)`  ->  `f(k=v)`  when t / d is bound exactly
+    once, at the top level of the function, to a literal of pure elements, is used only in splat positions, and none of the
+    names the elements mention is re-bound after that binding."""
+    if not any(isinstance(n, ast.Call) and (any(isinstance(a, ast.Starred) for a in n.args) or any(k.arg is None for k in n.keywords)) for n in ast.walk(fn)):
+        return fn, 0
+    binds: dict[str, list[ast.stmt]] = {}
+    for st in ast.walk(fn):
+        tg = st.targets[0] if isinstance(st, ast.Assign) and len(st.targets) == 1 else st.target if isinstance(st, ast.AnnAssign) and st.value is not None else None
+        if isinstance(tg, ast.Name):
+            binds.setdefault(tg.id, []).append(st)
+    stores: dict[str, list[int]] = {}
+    for n in ast.walk(fn):
+        if isinstance(n, ast.Name) and isinstance(n.ctx, (ast.Store, ast.Del)):
+            stores.setdefault(n.id, []).append(n.lineno)
+    pure = lambda e: _pure_chain(e) or isinstance(e, ast.Constant)
+    cands: dict[str, ast.expr] = {}
+    for nm, sts in binds.items():
+        if len(sts) != 1 or len(stores.get(nm, [])) != 1 or sts[0] not in fn.body:
+            continue
+        v = sts[0].value
+        if isinstance(v, (ast.Tuple, ast.List)) and all(pure(e) for e in v.elts):
+            parts = list(v.elts)
+        elif isinstance(v, ast.Dict) and all(isinstance(k, ast.Constant) and isinstance(k.value, str) and k.value.isidentifier() for k in v.keys) and all(pure(e) for e in v.values):
+            parts = list(v.values)
+        else:
+            continue
+        mentioned = {x.id for e in parts for x in ast.walk(e) if isinstance(x, ast.Name)}
+        if any(ln >= sts[0].lineno for m in mentioned for ln in stores.get(m, [])):
+            continue
+        cands[nm] = v
+    if not cands:
+        return fn, 0
+    # every load of a candidate must be a splat of the matching kind
+    splat_ids: set[int] = set()
+    for n in ast.walk(fn):
+        if isinstance(n, ast.Call):
+            for a in n.args:
+                if isinstance(a, ast.Starred) and isinstance(a.value, ast.Name) and isinstance(cands.get(a.value.id), (ast.Tuple, ast.List)):
+                    splat_ids.add(id(a.value))
+            for k in n.keywords:
+                if k.arg is None and isinstance(k.value, ast.Name) and isinstance(cands.get(k.value.id), ast.Dict):
+                    splat_ids.add(id(k.value))
+    for n in ast.walk(fn):
+        if isinstance(n, ast.Name) and isinstance(n.ctx, ast.Load) and n.id in cands and id(n) not in splat_ids:
+            cands.pop(n.id, None)
+    if not cands:
+        return fn, 0
+    count = 0
+    new = copy.deepcopy(fn) if not getattr(fn, "_xsa_copy", False) else fn
+    for n in ast.walk(new):
+        if not isinstance(n, ast.Call):
+            continue
+        args: list[ast.expr] = []
+        for a in n.args:
+            if isinstance(a, ast.Starred) and isinstance(a.value, ast.Name) and isinstance(cands.get(a.value.id), (ast.Tuple, ast.List)):
+                args.extend(copy.deepcopy(e) for e in cands[a.value.id].elts)
+                count += 1
+            else:
+                args.append(a)
+        kws: list[ast.keyword] = []
+        for k in n.keywords:
+            if k.arg is None and isinstance(k.value, ast.Name) and isinstance(cands.get(k.value.id), ast.Dict):
+                d = cands[k.value.id]
+                kws.extend(ast.keyword(arg=kk.value, value=copy.deepcopy(vv)) for kk, vv in zip(d.keys, d.values))
+                count += 1
+            else:
+                kws.append(k)
+        n.args, n.keywords = args, kws
+    if count == 0:
+        return fn, 0
+    ast.fix_missing_locations(new)
+    new._xsa_copy = True  # type: ignore[attr-defined]
+    return new, count
+
+
 def inline(fi) -> ast.AST:
     """Normalised copy of fi.raw_node: private helpers inlined, field aliases propagated (the node itself when
     nothing applies)."""
@@ -889,6 +974,7 @@ def inline(fi) -> ast.AST:
     new, _ = getattr_constants(new)
     new, _ = update_zip_to_loop(new)
     new, _ = expand_literal_quantifiers(new, getattr(fi.module, "assigns", {}))
+    new, _ = expand_splats(new)
     return new
 
 
